@@ -84,7 +84,13 @@ def compare(ctx: Ctx, doc, y, z, case):
                     v('header', f'{where}: header {e.text!r} exported as {oy!r} / {oz!r}')
             elif e.kind == 'bar':
                 if oy not in e.accept or oz not in e.accept:
-                    v('barline', f'{where}: barline {src!r} exported as {oy!r} / {oz!r}, expected {e.text!r}')
+                    sfx = (e.obj or {}).get('suffix', '')
+                    if sfx and oy == oz and oy in {a_[:-len(sfx)] for a_ in e.accept if a_.endswith(sfx)}:
+                        # explored class: everything is as the statement says except that the tolerated end mark is gone
+                        ctx.violation('barline-suffix-dropped', f'{where}: barline {src!r} exported as {oy!r}: the mark {sfx!r} at its end is '
+                                      f'dropped (a barline loses only its number)', dict(case, where=where))
+                    else:
+                        v('barline', f'{where}: barline {src!r} exported as {oy!r} / {oz!r}, expected {e.text!r}')
             elif e.kind == 'note' or e.kind == 'rest':
                 probs = GM.note_problems(oz, e.obj)
                 if probs:
@@ -249,6 +255,10 @@ def run(ctx: Ctx):
         one(ctx, cs)
     for cs in cases(ctx, 'c03sep', 30 if ctx.tier == 'quick' else 100):
         one(ctx, cs, 'texty', separator_text=0.3)
+    # explored class (known finding): the marks the grammar tolerates at the end of a barline
+    for cs in cases(ctx, 'c03barsuffix', 16 if ctx.tier == 'quick' else 60):
+        ctx.mon('explored_barline_suffix_documents')
+        one(ctx, cs, ['kern_only', 'default'][cs % 2], p_bar_suffix=0.5, measures=(2, 4))
     for cs in cases(ctx, 'c03ragged', 60 if ctx.tier == 'quick' else 200):
         ragged(ctx, cs)
     if ctx.tier == 'thorough':
